@@ -39,9 +39,9 @@ func c16Run(t *testing.T, root string, T time.Duration, seq []int) (closedAtStep
 		delivered := 0    // bytes of the current request delivered
 		waitStart := start // instant the server started waiting for the current request
 		cur := script[0].Encode()
-		fail := func(f string, a ...any) {
+		fail := func(sg, f string, a ...any) {
 			if why == "" {
-				why = sprintf(f, a...)
+				why = sg + "|" + sprintf(f, a...)
 			}
 		}
 		for step, ei := range seq {
@@ -57,16 +57,16 @@ func c16Run(t *testing.T, root string, T time.Duration, seq []int) (closedAtStep
 				trace = append(trace, sprintf("t=%v adv %v", after.Sub(start), d))
 				if !D.After(after) { // deadline falls inside (now, after]
 					if !c.ServerClosed() {
-						fail("step %d: request %d incomplete (%d of %d bytes) at its deadline %v, but the connection is still open at %v", step, ri, delivered, len(cur), D.Sub(start), after.Sub(start))
+						fail("not-cut-at-deadline", "step %d: request %d incomplete (%d of %d bytes) at its deadline %v, but the connection is still open at %v", step, ri, delivered, len(cur), D.Sub(start), after.Sub(start))
 					} else if !c.ClosedAt().Equal(D) {
-						fail("step %d: connection closed at %v, reference deadline is %v (wait started %v, T=%v)", step, c.ClosedAt().Sub(start), D.Sub(start), waitStart.Sub(start), T)
+						fail("cut-at-wrong-instant", "step %d: connection closed at %v, reference deadline is %v (wait started %v, T=%v)", step, c.ClosedAt().Sub(start), D.Sub(start), waitStart.Sub(start), T)
 					}
 					if x := c.Take(); len(x) != 0 {
-						fail("step %d: %d stray bytes at timeout", step, len(x))
+						fail("stray-bytes-at-timeout", "step %d: %d stray bytes at timeout", step, len(x))
 					}
 					closedAtStep = step
 				} else if c.ServerClosed() {
-					fail("step %d: connection cut at %v although the deadline of request %d is %v (wait started %v)", step, c.ClosedAt().Sub(start), ri, D.Sub(start), waitStart.Sub(start))
+					fail("cut-before-deadline", "step %d: connection cut at %v although the deadline of request %d is %v (wait started %v)", step, c.ClosedAt().Sub(start), ri, D.Sub(start), waitStart.Sub(start))
 					closedAtStep = step
 				}
 			default:
@@ -93,7 +93,7 @@ func c16Run(t *testing.T, root string, T time.Duration, seq []int) (closedAtStep
 				delivered += n
 				trace = append(trace, sprintf("t=%v %s %d bytes (request %d: %d/%d)", now.Sub(start), ev.Kind, n, ri, delivered, len(cur)))
 				if c.ServerClosed() {
-					fail("step %d: connection closed at %v while delivering request %d before its deadline %v", step, c.ClosedAt().Sub(start), ri, D.Sub(start))
+					fail("cut-while-delivering", "step %d: connection closed at %v while delivering request %d before its deadline %v", step, c.ClosedAt().Sub(start), ri, D.Sub(start))
 					closedAtStep = step
 					break
 				}
@@ -102,14 +102,14 @@ func c16Run(t *testing.T, root string, T time.Duration, seq []int) (closedAtStep
 					rq := script[ri%len(script)]
 					m.Pre(rq)
 					if w, _ := m.Check(rq, resp, false); w != "" {
-						fail("step %d: response to completed request %d: %s", step, ri, w)
+						fail("wrong-response", "step %d: response to completed request %d: %s", step, ri, w)
 					}
 					ri++
 					cur = script[ri%len(script)].Encode()
 					delivered = 0
 					waitStart = time.Now() // the server re-arms when it starts waiting for the next request
 				} else if len(resp) != 0 {
-					fail("step %d: %d response bytes before request %d was complete", step, len(resp), ri)
+					fail("early-response", "step %d: %d response bytes before request %d was complete", step, len(resp), ri)
 				}
 			}
 			if closedAtStep >= 0 || why != "" {
@@ -119,17 +119,17 @@ func c16Run(t *testing.T, root string, T time.Duration, seq []int) (closedAtStep
 		if closedAtStep >= 0 && why == "" {
 			synctest.Wait()
 			if l := leaf.Outstanding(); len(l) > 0 {
-				fail("after the cut %d handle(s) stay open: %v", len(l), l)
+				fail("handle-leak-after-cut", "after the cut %d handle(s) stay open: %v", len(l), l)
 			}
 		}
 		s.Shutdown()
 		select {
 		case <-s.done:
 		default:
-			fail("Serve did not return")
+			fail("serve-stuck", "Serve did not return")
 		}
 		if l := leaf.Outstanding(); len(l) > 0 {
-			fail("after shutdown %d handle(s) stay open: %v", len(l), l)
+			fail("handle-leak", "after shutdown %d handle(s) stay open: %v", len(l), l)
 		}
 	})
 	return
